@@ -50,12 +50,21 @@ def c13(run):
                 "signs, hasanta, chandrabindu, punctuation, ZWNJ, reph/ro-fola/zo-fola keys) x 8 settings of the other helpers with old "
                 "reph on; checks ImplReph against PropRephSet (conservation for every text, exact placement for texts matching the "
                 "syllable grammar) and replays every history ending in the reph key through the real engine.  Non-trivial = expected text non-empty.")
-    depth = 5 if run.quick() else 6
+    depth = 6 if run.quick() else 7
     tlc, s = run_tlc_replay(run, "MC_Reph", "MC_Fixed.tla",
                             dict(spec="Spec", constants={"Depth": depth, "Alphabet": '"reph"'},
                                  invariants=["ImplRefinesProp", "Emit"]),
                             "C13", workers=8, threads=8)
     run.add(tlc, s)
+    # class sweep: all ten vowel signs (incl. the two-part ones), anusvara / visarga / khanda-ta, a digit - shorter histories
+    dc = 4 if run.quick() else 5
+    tlc, s = run_tlc_replay(run, "MC_Reph_classes", "MC_Fixed.tla",
+                            dict(spec="Spec", constants={"Depth": dc, "Alphabet": '"rephclasses"'},
+                                 invariants=["ImplRefinesProp", "Emit"]),
+                            "C13", workers=8, threads=8)
+    run.add(tlc, s)
+    run.rule += ("  ||  and every history to depth %d ending in the reph key over 25 values: three consonants, khanda-ta, ALL ten vowel signs, a vowel, hasanta, "
+                 "chandrabindu, anusvara, visarga, ZWNJ, punctuation, digit, reph / ro-fola / zo-fola keys" % dc)
     # option off: the reph key simply appends its value -- covered by the full alphabet with reph off
     tlc, s = run_tlc_replay(run, "MC_Fixed_d3", "MC_Fixed.tla",
                             dict(spec="Spec", constants={"Depth": 3, "Alphabet": '"full"'},
@@ -179,7 +188,8 @@ def c03(run):
     run.sites = {"translit", "panic"}
     q = run.quick()
     wl, al, cl = (6, 4, 2) if q else (7, 5, 3)
-    for name, mode, n, workers in (("MC_Split_wrapped", "wrapped", wl, 4), ("MC_Split_any", "any", al, 4), ("MC_Split_chars", "chars", cl, 4)):
+    for name, mode, n, workers in (("MC_Split_wrapped", "wrapped", wl, 4), ("MC_Split_any", "any", al, 4), ("MC_Split_chars", "chars", cl, 4),
+                                   ("MC_Split_punctruns", "punctruns", 3 if q else 4, 4)):
         tlc, s = run_tlc_replay(run, name, "MC_Split.tla",
                                 dict(spec="Spec", constants={"MaxLen": n, "Mode": '"%s"' % mode},
                                      invariants=["Structural", "WrappedAgrees", "ColonShrinks", "SmartQuoteLocal", "Emit"]),
@@ -190,7 +200,8 @@ def c03(run):
                 "concretises each class (canonical / swept / random member, 2-3 variants), types the text and compares the lonely suggestion with "
                 "okkhor(P)+okkhor(W)+okkhor(Q) (suggestions off, 2 configs); with suggestions on (3 configs: English/smart quotes/ANSI) the same "
                 "transliteration must be a candidate modulo curling: class strings to length %d and EVERY string over the 94 typeable characters "
-                "to length %d.  Non-trivial = every scenario with at least one transliteration comparison." % (wl, al, cl))
+                "to length %d, and every run of punctuation / symbol characters around at most one letter or digit to length %d.  Non-trivial = every scenario "
+                "with at least one transliteration comparison." % (wl, al, cl, 3 if q else 4))
     run.assumptions += ["the transliteration function itself is the okkhor public parser (oracle named by the statement)",
                         "class uniformity is tested by the swept/random variants, not assumed; for non-wrapped strings the split of the transcript is the definition"]
 
@@ -263,13 +274,18 @@ def c11(run):
     run.add(tlc, s)
     run.sites |= {"fresh"}
     run.rule = ("TLC enumerates histories [typing before] [edits of the user auto-correct file] update-engine(new configuration) [typing after] over "
-                "%s configurations (phonetic with different options, fixed with two layout files) and 3 words (one with a bundled auto-correct entry), checks "
+                "%s configurations (phonetic with different options, fixed with the bundled layout file and a file of the SAME NAME in another directory whose plain keys differ) and 4 words "
+                "(one with a bundled auto-correct entry, one wrapped in quotes so that the smart-quote option shows), checks "
                 "UpdatedEquivFresh on the memo/stamp model and emits every maximal history; the harness writes the file with explicit modification times, "
                 "runs the history, creates a brand-new context with the new configuration over the same user files at the update point and compares the "
                 "complete renderings of every later key.  MC_Session histories (depth %d) add update events between arbitrary composition events with "
                 "fresh-context forks.  Non-trivial = histories with at least one compared continuation." % ("4" if run.quick() else "7", d))
-    run.assumptions += ["only content edits with an advancing modification time are generated (the statement says 'edited'); deleting the file is out of scope",
+    run.assumptions += ["edits of the auto-correct file: entries added / changed / removed, the file made unparsable, the file deleted - always with an advancing modification time",
                         "every configuration of a history uses the same data directory (the statement: same data directory)"]
+    # impl -> spec: recorded random sessions with update-engine calls to random configurations (all helper options, number pad,
+    # suggestions, both layout files, method switches); after an update every configuration-dependent conjunct is enforced
+    # against the NEW configuration (Trace_Session, Focus = C11)
+    session_trace(run, "C11", "update")
 
 
 def apalache_store(run):
@@ -294,6 +310,26 @@ def apalache_store(run):
     shutil.rmtree(os.path.join(stages.SPEC, "_apalache-out"), ignore_errors=True)
 
 
+def store_two_contexts(run):
+    """Design observation outside C09's quantifier (one context and its restarts): with two live contexts over one directory the
+    whole-map rewrite loses updates.  TLC must confirm NoLostUpdate for one context; the outcome for two is recorded, never an alarm."""
+    obs = []
+    for n in (1, 2):
+        cfg = os.path.join(run.dir, "MC_Store2_%d.cfg" % n)
+        write_cfg(cfg, spec="Spec", constants={"Contexts": n, "MaxSteps": 6}, invariants=["NoLostUpdate"])
+        meta = os.path.join(run.dir, "meta-store2-%d" % n)
+        r = subprocess.run(["timeout", "300", "tlc", "-workers", "2", "-checkpoint", "0", "-noGenerateSpecTE", "-metadir", meta, "-cleanup", "-config", cfg,
+                            "MC_Store2.tla"], cwd=stages.SPEC, env=tlc_env(), capture_output=True, text=True)
+        shutil.rmtree(meta, ignore_errors=True)
+        violated = "Invariant NoLostUpdate is violated" in r.stdout
+        done = "Model checking completed. No error has been found." in r.stdout
+        obs.append({"contexts": n, "NoLostUpdate": "violated" if violated else "holds" if done else "undecided"})
+        if n == 1 and not done:
+            run.model_violations.append(("MC_Store2(Contexts=1)", "NoLostUpdate", cfg))
+    run.extra["observations"] = [{"module": "MC_Store2", "what": "learned-selection store with several live contexts over one directory (whole-map rewrite): "
+                                  "lost update outside C09's quantifier", "results": obs}]
+
+
 def c09(run):
     run.sites = {"store", "panic"}
     tlc, s0 = run_tlc_replay(run, "MC_Split_store", "MC_Split.tla",
@@ -305,6 +341,7 @@ def c09(run):
                                   invariants=["Remembered", "SurvivesRestart"]), "C09", workers=4, threads=1)
     run.add(tlc, None)
     apalache_store(run)
+    store_two_contexts(run)
     rounds = 60 if run.quick() else 400
     tlc, s = run_record_validate(run, "store", "store", "Trace_Store.tla", "C09", "store", rounds, shards=8, focus="C09")
     run.add(tlc, s)
@@ -384,6 +421,7 @@ def fcands(run, focus, site):
 def c15(run):
     run.sites = {"fixedlist"}
     run.rule = fcands(run, "C15", "fixedlist")
+    design_fixedlist(run, ["FFirstIsWord", "FAtMostNine", "FNoRepeats", "FNonDecreasing", "FEnglishLast"], 2 if run.quick() else 3, 3 if run.quick() else 12)
     run.assumptions += ["dictionary facts from the JSON re-read by the harness; 'ignoring punctuation and non-joiners' = removing ASCII punctuation, danda and ZWNJ",
                         "the recorder proposes the word; the trace specification compares with its own split (':' is punctuation in fixed mode) and skips on disagreement"]
 
@@ -395,6 +433,7 @@ def c16(run):
     run.rule = r1 + "  ||  " + fcands(run, "C16", "ansi")
     dict_pass(run)
     design_candidates(run, ["AnsiGate"], 1, 2)
+    design_fixedlist(run, ["FAnsiGate"], 1, 2)
 
 
 def c18(run):
@@ -403,6 +442,7 @@ def c18(run):
     r1 = run.rule
     run.rule = r1 + "  ||  " + fcands(run, "C18", "emoji")
     design_candidates(run, ["EmojiTableOrder", "NoEmojiBeforeExact"], 1, 3)
+    design_fixedlist(run, ["FEmojiPrefix", "FEmojiAllIfRoom", "FEmoticonShown"], 2, 12)
 
 
 def dict_pass(run):
@@ -423,6 +463,17 @@ def design_candidates(run, invariants, maxdict, maxemoji):
     run.rule += ("  ||  design level: MC_Candidates (transcript of list assembly: five sources, the Rank comparator, duplicate checks, stable insertion sort) checked "
                  "against %s for every multiset of <= %d dictionary facts over 4 text tokens x 3 distances, optional auto-correct, <= %d emoji, emoticon, coinciding raw "
                  "text, English / ANSI (%d states)" % (", ".join(invariants), maxdict, maxemoji, tlc["states"]))
+
+
+def design_fixedlist(run, invariants, maxdict, maxemoji):
+    tlc, s = run_tlc_replay(run, "MC_FixedList", "MC_FixedList.tla",
+                            dict(spec="Spec", constants={"MaxDict": maxdict, "MaxEmoji": maxemoji, "AssumeData": "TRUE"}, invariants=invariants),
+                            run.pid, workers=12, threads=1, timeout=7000)
+    run.add(tlc, None)
+    run.rule += ("  ||  design level: MC_FixedList (transcript of the fixed-layout list: typed word first-ranked, hits in table order, consecutive-only de-duplication, "
+                 "emoticon / name emoji, comparator + stable sort, cut to nine / eight + raw text) checked against %s for every sequence of <= %d hits over 4 text tokens x 3 "
+                 "distances, <= %d emoji, emoticon, raw text equal or not, English / ANSI (%d states); the data facts it assumes (ExactFirst, AdjacentDup) are checked on "
+                 "the real dictionary by the recorder (event dictfacts)" % (", ".join(invariants), maxdict, maxemoji, tlc["states"]))
 
 
 def c07(run):
